@@ -26,7 +26,9 @@ CONSTANTS StreamName,
           HasDisc,    \* the last packet is DISCONNECT (2 bytes)
           Fams,       \* families to enumerate: records made with Fam(..) below
           BufSize,    \* size of the bufio.Reader in front of the packet reader (readBufferSize = 1024)
-          MaxChunks   \* bound on the number of messages in the stepwise families
+          MaxChunks,  \* bound on the number of messages in the stepwise families
+          Trail       \* bytes that follow DISCONNECT inside the last message (never processed: DISCONNECT ends the
+                      \* connection; and never seen by any OTHER connection either)
 
 VARIABLES fam, pos, seg
 
@@ -94,6 +96,10 @@ Empties(zs) == {[BndAll(0) EXCEPT !.t = "empties", !.z = z] : z \in zs}
 
 \* the packet-aligned segmentation (and the one shifted by one byte) with message x sent as text
 TextFams == UNION {{[BndAll(d) EXCEPT !.t = "text", !.x = x, !.d = 0] : x \in 1..Len(Pk)} : d \in {0, 1}}
+
+\* the packet-aligned segmentation with an empty message after every message, the empty message after packet x sent as
+\* TEXT: a text message is rejected whatever its length
+TextEmptyFams == {[BndAll(0) EXCEPT !.t = "text-empty", !.z = 1, !.x = 2 * x, !.d = 0] : x \in 1..(Len(Pk) - DD)}
 
 \* stepwise (non-deterministic) families
 AllComps       == Fam("all", 0, 0, {}, 0, 0)             \* every composition
@@ -233,5 +239,6 @@ ImplFirstDrop(s) == LET e == Run(s, Start) IN [drop |-> e.drop, n |-> e.n]
 Emit == (pos = N) =>
           LET pr == ImplFirstDrop(seg)
           IN PrintT(ToJson([stream |-> StreamName, fam |-> fam.t, a |-> fam.a, b |-> fam.b, z |-> fam.z, d |-> fam.d,
-                            text |-> fam.x, seg |-> seg, drop |-> pr.drop, dropn |-> pr.n]))
+                            text |-> fam.x, seg |-> seg, drop |-> pr.drop, dropn |-> pr.n,
+                            trail |-> IF HasDisc /\ fam.x = 0 THEN Trail ELSE 0]))
 =============================================================================
